@@ -295,11 +295,13 @@ theorem forwardLoop_valid {g : Graph} (hwf : g.WF) (mode : Mode) (r : Node) :
           · cases hs : (stepForward g ax test op old).2.1 with
             | none =>
               rw [hs] at h1
+              simp only [preValid] at h1
               rcases mem_union.mp h1 with h2 | h2
               · exact hvalid x h2
               · exact hns x h2
             | some qi =>
               rw [hs] at h1
+              simp only [preValid] at h1
               rcases mem_union.mp h1 with h2 | h2
               · exact hvalid x h2
               · obtain ⟨o, ho, hr⟩ := findIntermediateNodes_reach g _ _ _ x h2
